@@ -26,12 +26,26 @@ prescribed (the library documents this misuse as "tolerated with a warning").
     NOACT   may raise or not, but must emit no state-changing DBAPI call
     EITHER  may raise or not (tainted); ``apply(raised)`` gives the transition
     SKIP    not applicable in this state (the driver does not perform it)
+    FAIL    the op's COMMIT / RELEASE / ROLLBACK is going to fail: it must raise
+
+Failure at a transaction boundary.  A failed *outer commit* leaves the root "failed": the
+database transaction is still open (everything pending stays pending), every savepoint is
+gone as far as the application is concerned (handles ended, in_nested_transaction False),
+nothing works until rollback()/close().  A failed savepoint RELEASE / ROLLBACK TO ends that
+handle and dissolves its frame into the parent (tainted).  A failed *outer rollback* is
+terminal for the model (what the database still holds is undefined): only the view of the
+handles right after it is prescribed - no savepoint survives its enclosing transaction.
+Ids < 0 stand for rows that violate a deferred foreign key: an outer COMMIT fails while one
+is pending.
 
 and ``apply(raised: bool)`` performs the model transition.
 """
 from __future__ import annotations
 
 OK, RAISE, NOACT, EITHER, SKIP = "ok", "raise", "noact", "either", "skip"
+# FAIL: the DBAPI call this op makes is going to fail (injected fault, or a deferred constraint
+# reported at COMMIT): the op must raise; apply(raised) gives the state a *failed* op leaves.
+FAIL = "fail"
 
 
 class Handle:
@@ -58,6 +72,8 @@ class TxnModel:
         self.ctx_base = 0     # entries below this index are owned by engine.begin()
         self.closed = True    # no connection yet
         self.tainted = False
+        self.failed = False     # outer commit failed: root inactive but current, needs rollback
+        self.terminal = False   # outer rollback failed: the model stops here
         self.gen = 0
         self.nh = 0
 
@@ -69,16 +85,24 @@ class TxnModel:
         return out
 
     def txn_view(self):
-        return self.committed | set(self.pending())
+        return self.committed | {i for i in self.pending() if i > 0}
+
+    def has_bad(self):
+        return any(i < 0 for i in self.pending())
 
     def in_transaction(self):
-        return bool(self.frames)
+        return bool(self.frames) and not self.failed
 
     def in_nested(self):
         return len(self.frames) > 1
 
     def depth(self):
         return len(self.frames)
+
+    def ended_handles(self):
+        """user visible handles of this connection that must be dead"""
+        return [(i, h) for i, h in enumerate(self.slots)
+                if h is not None and h.gen == self.gen and h.state == "ended"]
 
     def status_of(self, h):
         if h is None:
@@ -107,6 +131,25 @@ class TxnModel:
             h.state = "ended"
         self.frames = []
         self.tainted = False
+        self.failed = False
+
+    def _fail_commit(self):
+        """the outer COMMIT failed"""
+        root = self.frames[0]
+        ids = self.pending()
+        for h in self._all_live():
+            if h is not root:
+                h.state = "ended"
+        root.ids = ids
+        root.state = "failed"
+        self.frames = [root]
+        self.tainted = False
+        self.failed = True
+
+    def _fail_rollback(self):
+        """the outer ROLLBACK failed"""
+        self._end_all(False)
+        self.terminal = True
 
     def _all_live(self):
         out = list(self.frames)
@@ -145,7 +188,7 @@ class TxnModel:
         def fail(raised):
             self.slots.append(None)
 
-        if self.closed or self._ctx_blocked():
+        if self.closed or self._ctx_blocked() or self.failed:
             return RAISE, fail
         if kind == "root" and self.frames:
             return RAISE, fail
@@ -175,8 +218,11 @@ class TxnModel:
     def _op_cmn(self):
         return self._creating("nested", True)
 
+    def _op_bad(self, ident):
+        return self._op_ins(-ident)
+
     def _op_ins(self, ident):
-        if self.closed or self._ctx_blocked():
+        if self.closed or self._ctx_blocked() or self.failed:
             return RAISE, (lambda raised: None)
 
         def apply(raised):
@@ -189,22 +235,62 @@ class TxnModel:
                 self.frames[-1].ids.append(ident)
         return (EITHER if self.tainted else OK), apply
 
-    def _op_commit(self):
+    def _outer_commit(self, fault):
+        if self.failed:
+            return RAISE, (lambda raised: None)
+        if self.frames and (fault or self.has_bad()):
+            if self.tainted:
+                return SKIP, None
+
+            def apply_f(raised):
+                if raised:
+                    self._fail_commit()
+                else:
+                    self._end_all(True)
+            return FAIL, apply_f
+
         def apply(raised):
             if self.frames:
                 self._end_all(True)
         return OK, apply
 
-    def _op_rollback(self):
+    def _outer_rollback(self, fault):
+        if self.frames and fault:
+            if self.tainted:
+                return SKIP, None
+
+            def apply_f(raised):
+                if raised:
+                    self._fail_rollback()
+                else:
+                    self._end_all(False)
+            return FAIL, apply_f
+
         def apply(raised):
             if self.frames:
                 self._end_all(False)
         return OK, apply
 
-    def _handle_end(self, h, how):
+    def _op_commit(self):
+        return self._outer_commit(False)
+
+    def _op_fc(self):
+        return self._outer_commit(True)
+
+    def _op_rollback(self):
+        return self._outer_rollback(False)
+
+    def _op_fr(self):
+        return self._outer_rollback(True)
+
+    def _handle_end(self, h, how, fault=False):
         """how: 'commit' | 'rollback' (close == rollback for the data)"""
         if h is None:
             return SKIP, None
+        if h.gen == self.gen and h.state == "failed":
+            if how == "commit":
+                return RAISE, (lambda raised: None)
+            return self._outer_rollback(fault)
         if h.gen != self.gen or h.state == "ended":
             return (RAISE if how == "commit" else NOACT), (lambda raised: None)
         if h.state == "zombie":
@@ -213,11 +299,11 @@ class TxnModel:
             return EITHER, apply_z
         # active
         if h.kind == "root":
-            def apply_root(raised):
-                self._end_all(how == "commit")
-            return OK, apply_root
+            return self._outer_commit(fault) if how == "commit" else self._outer_rollback(fault)
         idx = self.frames.index(h)
         top = idx == len(self.frames) - 1
+        if fault and self.tainted:
+            return SKIP, None
 
         def apply(raised):
             if raised:
@@ -240,6 +326,8 @@ class TxnModel:
             del self.frames[idx:]
             h.state = "ended"
         clean = top and not self.tainted and not self._ctx_blocked()
+        if fault and not self._ctx_blocked():
+            return FAIL, apply
         return (OK if clean else EITHER), apply
 
     def _slot(self, i):
@@ -254,10 +342,27 @@ class TxnModel:
     def _op_hx(self, i):
         return self._handle_end(self._slot(i), "rollback")
 
+    def _op_fhc(self, i):
+        return self._handle_end(self._slot(i), "commit", fault=True)
+
+    def _op_fhr(self, i):
+        return self._handle_end(self._slot(i), "rollback", fault=True)
+
     def _exit(self, how):
         if len(self.ctx) <= self.ctx_base:
             return SKIP, None
         h = self.ctx[-1]
+        if self.failed:
+            return SKIP, None       # (what __exit__ does with a failed root is not prescribed)
+        if how == "commit" and h.state == "active" and h.kind == "root" and self.has_bad():
+            if self.tainted:
+                return SKIP, None
+
+            # __exit__: commit() fails, so it rolls back and re-raises
+            def apply_x(raised):
+                self._end_all(raised is False)
+                self.ctx.pop()
+            return FAIL, apply_x
         exp, inner = self._handle_end(h, how)
         if exp == RAISE:
             # __exit__ on an ended transaction never commits: it is a no-op
